@@ -76,6 +76,11 @@ impl ModelCfg {
 
 fn gen_model(rng: &mut Rng, idx: usize) -> ModelCfg {
     let (file, eru) = MODELS[idx];
+    // the declared rate unit decides how the model's number is read: any unit of the same energy kind is a valid declaration
+    let eru = match eru {
+        EnergyRateUnit::KilowattHoursPerMile | EnergyRateUnit::KilowattHoursPerKilometer | EnergyRateUnit::KilowattHoursPerMeter => *rng.pick(&[EnergyRateUnit::KilowattHoursPerMile, EnergyRateUnit::KilowattHoursPerMile, EnergyRateUnit::KilowattHoursPerKilometer, EnergyRateUnit::KilowattHoursPerMeter]),
+        other => other,
+    };
     ModelCfg {
         file,
         eru,
